@@ -51,7 +51,23 @@ type variantReport struct {
 
 func runSelftest(prop, repo, verif string) selfResult {
 	res := selfResult{}
-	vs := rules.Variants[prop]
+	vs := append([]rules.Variant{}, rules.Variants[prop]...)
+	// confirmed seeded changes from independent authors (seeded/<id>/patch.diff) are breaking variants too
+	if dirs, _ := filepath.Glob(filepath.Join(verif, "seeded", "*", "meta.json")); dirs != nil {
+		sort.Strings(dirs)
+		for _, mf := range dirs {
+			var meta struct {
+				ID       string `json:"id"`
+				Property string `json:"property"`
+				Needs    string `json:"needs_to_manifest"`
+			}
+			b, err := os.ReadFile(mf)
+			if err != nil || json.Unmarshal(b, &meta) != nil || meta.Property != prop {
+				continue
+			}
+			vs = append(vs, rules.Variant{Name: "seeded:" + meta.ID, Patch: filepath.Join(filepath.Dir(mf), "patch.diff"), Expect: prop + ".", Why: meta.Needs})
+		}
+	}
 	exe, _ := os.Executable()
 	type job struct {
 		i int
@@ -68,13 +84,21 @@ func runSelftest(prop, repo, verif string) selfResult {
 			defer wg.Done()
 			sem <- struct{}{}
 			defer func() { <-sem }()
-			src, err := os.ReadFile(filepath.Join(repo, v.File))
-			if err != nil || !bytes.Contains(src, []byte(v.Old)) {
-				skipped[i] = true
-				details[i] = selfDetail{Name: v.Name, Kind: kind(v), Outcome: "skipped: old text not present in " + v.File}
-				return
+			if v.Patch != "" {
+				if _, err := overlayFromPatch(repo, v.Patch); err != nil {
+					skipped[i] = true
+					details[i] = selfDetail{Name: v.Name, Kind: kind(v), Outcome: "skipped: patch no longer applies to this tree"}
+					return
+				}
+			} else {
+				src, err := os.ReadFile(filepath.Join(repo, v.File))
+				if err != nil || !bytes.Contains(src, []byte(v.Old)) {
+					skipped[i] = true
+					details[i] = selfDetail{Name: v.Name, Kind: kind(v), Outcome: "skipped: old text not present in " + v.File}
+					return
+				}
 			}
-			cmd := exec.Command(exe, "variant", "-prop", prop, "-repo", repo, "-verif", verif, "-name", v.Name)
+			cmd := exec.Command(exe, "variant", "-prop", prop, "-repo", repo, "-verif", verif, "-name", v.Name, "-patch", v.Patch)
 			var out bytes.Buffer
 			cmd.Stdout = &out
 			cmd.Stderr = &out
@@ -164,6 +188,7 @@ func cmdVariant(args []string) int {
 	repo := fs.String("repo", "/repo", "")
 	verif := fs.String("verif", defaultVerif(), "")
 	name := fs.String("name", "", "")
+	patch := fs.String("patch", "", "")
 	verbose := fs.Bool("v", false, "")
 	fs.Parse(args)
 	var v *rules.Variant
@@ -171,6 +196,9 @@ func cmdVariant(args []string) int {
 		if rules.Variants[*prop][i].Name == *name {
 			v = &rules.Variants[*prop][i]
 		}
+	}
+	if *patch != "" {
+		v = &rules.Variant{Name: *name, Patch: *patch}
 	}
 	rep := variantReport{Bad: []string{}}
 	emit := func() int {
@@ -182,14 +210,24 @@ func cmdVariant(args []string) int {
 		rep.LoadError = "unknown variant"
 		return emit()
 	}
-	path := filepath.Join(*repo, v.File)
-	src, err := os.ReadFile(path)
-	if err != nil {
-		rep.LoadError = err.Error()
-		return emit()
+	var overlay map[string][]byte
+	if v.Patch != "" {
+		ov, err := overlayFromPatch(*repo, v.Patch)
+		if err != nil {
+			rep.LoadError = err.Error()
+			return emit()
+		}
+		overlay = ov
+	} else {
+		path := filepath.Join(*repo, v.File)
+		src, err := os.ReadFile(path)
+		if err != nil {
+			rep.LoadError = err.Error()
+			return emit()
+		}
+		overlay = map[string][]byte{path: bytes.Replace(src, []byte(v.Old), []byte(v.New), 1)}
 	}
-	mod := bytes.Replace(src, []byte(v.Old), []byte(v.New), 1)
-	p, err := engine.Load(engine.LoadOpts{Dir: *repo, Overlay: map[string][]byte{path: mod}})
+	p, err := engine.Load(engine.LoadOpts{Dir: *repo, Overlay: overlay})
 	if err != nil {
 		rep.LoadError = err.Error()
 		return emit()
@@ -243,4 +281,50 @@ func cmdSelftest(args []string) int {
 		}
 	}
 	return exit
+}
+
+// overlayFromPatch applies a unified diff to copies of the files it names (in a temporary directory outside the
+// repository) and returns the patched contents keyed by their path in the repository.
+func overlayFromPatch(repo, patchFile string) (map[string][]byte, error) {
+	b, err := os.ReadFile(patchFile)
+	if err != nil {
+		return nil, err
+	}
+	var files []string
+	for _, line := range strings.Split(string(b), "\n") {
+		if strings.HasPrefix(line, "+++ b/") {
+			files = append(files, strings.TrimSpace(strings.TrimPrefix(line, "+++ b/")))
+		}
+	}
+	if len(files) == 0 {
+		return nil, fmt.Errorf("no files in patch")
+	}
+	tmp, err := os.MkdirTemp("", "frpsa-patch-")
+	if err != nil {
+		return nil, err
+	}
+	defer os.RemoveAll(tmp)
+	for _, f := range files {
+		src, err := os.ReadFile(filepath.Join(repo, f))
+		if err != nil {
+			return nil, err
+		}
+		os.MkdirAll(filepath.Dir(filepath.Join(tmp, f)), 0o755)
+		if err := os.WriteFile(filepath.Join(tmp, f), src, 0o644); err != nil {
+			return nil, err
+		}
+	}
+	cmd := exec.Command("patch", "-p1", "-s", "-f", "--no-backup-if-mismatch", "-d", tmp, "-i", patchFile)
+	if out, err := cmd.CombinedOutput(); err != nil {
+		return nil, fmt.Errorf("patch does not apply: %s", strings.TrimSpace(string(out)))
+	}
+	ov := map[string][]byte{}
+	for _, f := range files {
+		nb, err := os.ReadFile(filepath.Join(tmp, f))
+		if err != nil {
+			return nil, err
+		}
+		ov[filepath.Join(repo, f)] = nb
+	}
+	return ov, nil
 }
